@@ -112,6 +112,10 @@ impl C14 {
         let (src, kind) = self.program(idx, &mut rng, obs);
         let mut base = self.boot.clone();
         let _ = base.set_stack_limit(Some(20_000));
+        if rng.flip() {
+            base.set_recording_enabled(true);
+            obs.count("insn:cases_with_recording");
+        }
         if !matches!(catch(|| base.compile(&src)), Ok(Ok(()))) {
             obs.skipped += 1;
             obs.count("skipped:does-not-build");
@@ -286,6 +290,11 @@ impl C14 {
         }
         let mut base = self.boot.clone();
         let _ = base.set_insn_limit(Some(6000));
+        // reverse-step recording takes other code paths for the same pushes
+        if rng.flip() {
+            base.set_recording_enabled(true);
+            obs.count("stack:cases_with_recording");
+        }
         // pre-existing items (they are hidden from nothing at top level, but count towards the limit)
         let pre = rng.below(4);
         for i in 0..pre {
@@ -420,9 +429,14 @@ impl C14 {
         for f in &feats {
             obs.see("growth_paths", f);
         }
+        let recording = rng.flip();
+        if recording {
+            obs.count("shift:cases_with_recording");
+        }
         let outcome = |boot: &Xstate, pre: usize, lim: usize, compile_run: bool| -> Result<(String, usize), String> {
             let mut xs = boot.clone();
             let _ = xs.set_insn_limit(Some(8000));
+            xs.set_recording_enabled(recording);
             for i in 0..pre {
                 let _ = xs.push_data(Cell::Int(1000 + i as i128));
             }
@@ -518,6 +532,10 @@ impl C14 {
         }
         let mut base = self.boot.clone();
         let _ = base.set_insn_limit(Some(8000));
+        if rng.flip() {
+            base.set_recording_enabled(true);
+            obs.count("heap:cases_with_recording");
+        }
         // some interpreters already own extra cells
         let extra = rng.below(4);
         for i in 0..extra {
@@ -566,6 +584,21 @@ impl C14 {
                                 if b + ok < lim {
                                     return self.v(obs, idx, "heap:refused-below-limit", format!("defvar on a heap of {} cells", b), format!("heap limit {}: defvar refused with only {} cells", lim, len));
                                 }
+                                // the refused definition did not happen: its name stays unknown, also after the limit
+                                // is raised and other variables are allocated
+                                let refused = format!("api{}", i);
+                                let _ = xs.set_heap_limit(Some(len + 8));
+                                let r2 = catch(|| xs.defvar(Xstr::from("after_raise"), Cell::Int(77)));
+                                if !matches!(r2, Ok(Ok(_))) || xs.get_var_value("after_raise").ok().map(show) != Some("77".to_string()) {
+                                    return self.v(obs, idx, "heap:recovery", format!("defvar on a heap of {} cells", b), format!("heap limit {} refused defvar #{}; limit raised to {}; a further defvar failed", lim, i, len + 8));
+                                }
+                                let _ = catch(|| xs.eval(&format!("5 ! {}", refused)));
+                                let seen = xs.get_var_value(&refused).ok().map(show);
+                                let probe = xs.get_var_value("after_raise").ok().map(show);
+                                if seen.is_some() || probe != Some("77".to_string()) {
+                                    return self.v(obs, idx, "heap:refused-definition-left-behind", format!("defvar on a heap of {} cells, limit {}", b, lim), format!("defvar {} was refused by the heap limit, yet afterwards the name resolves to {:?}; variable after_raise (77) now reads {:?}", refused, seen, probe));
+                                }
+                                obs.count("heap:refused_definitions_checked");
                                 break;
                             }
                             other => return self.v(obs, idx, "heap:api-error", "defvar".into(), format!("{:?}", other.map(|r| r.map(|_| ()).map_err(|e| show_err(&e))))),
@@ -622,6 +655,10 @@ impl C14 {
         let mut rng = Rng::for_case("C14session", self.seed, idx);
         let mut xs = self.boot.clone();
         let _ = xs.set_insn_limit(Some(3000));
+        if rng.flip() {
+            xs.set_recording_enabled(true);
+            obs.count("session:cases_with_recording");
+        }
         let (mut n_lim, mut s_lim, mut h_lim): (Option<usize>, Option<usize>, Option<usize>) = (Some(3000), None, None);
         let mut since_set = 0usize; // instructions executed since the instruction limit was last set (own counter)
         let mut hist = vec![];
@@ -713,17 +750,90 @@ impl C14 {
     }
 }
 
+impl C14 {
+    // ------------------------------------------------------------------ one instruction budget across several sources
+    /// Every tick (`"x" print`) costs at least two instructions (load the string, call print), wherever it executes: at
+    /// top level, inside a meta block at build time, in an immediate word, in a source that is rejected afterwards. So
+    /// after set_insn_limit(N) at most N/2 ticks can ever be printed, however often sources are resubmitted.
+    fn budget_case(&mut self, idx: u64, obs: &mut Obs) {
+        let mut rng = Rng::for_case("C14budget", self.seed, idx);
+        let mut xs = self.boot.clone();
+        let _ = xs.set_stack_limit(Some(500));
+        if rng.flip() {
+            xs.set_recording_enabled(true);
+        }
+        let _ = xs.eval(": imm-ticks 5 0 do \"x\" print loop ; immediate");
+        let _ = xs.read_stdout();
+        let n = *rng.pick(&[0usize, 1, 2, 3, 7, 20, 50, 120, 400]);
+        let _ = xs.set_insn_limit(Some(n));
+        let mut hist = vec![format!("set_insn_limit({})", n)];
+        let mut ticks = 0usize;
+        let mut rejected = 0;
+        let mut last: Option<String> = None;
+        for _ in 0..3 + rng.below(8) {
+            let k = 1 + rng.below(40);
+            let src = if last.is_some() && rng.chance(1, 3) {
+                // resubmit the previous source as it is
+                last.clone().unwrap()
+            } else {
+                match rng.below(9) {
+                    0 => format!("{} 0 do \"x\" print loop", k),
+                    1 => format!("#( {} 0 do \"x\" print loop #)", k),
+                    2 => format!("#( {} 0 do \"x\" print loop #) no-such-word", k),
+                    3 => "#( begin \"x\" print false until #)".to_string(),
+                    4 => "imm-ticks no-such-word".to_string(),
+                    5 => format!(": t{} #( {} 0 do \"x\" print loop 1 #) ; t{} no-such-word", k, k, k),
+                    6 => format!("[ #( {} 0 do \"x\" print loop #) ] ]", k),
+                    7 => format!("[ 1 2 3 ] foreach \"x\" print loop #( \"x\" print #) then", ),
+                    _ => format!("#( : w{} \"x\" print ; {} 0 do w{} loop #) 1 +", k, k, k),
+                }
+            };
+            let r = catch(|| xs.eval(&src));
+            let out = xs.read_stdout().unwrap_or_default();
+            let t = out.matches('x').count();
+            ticks += t;
+            let res = match &r {
+                Err((m, l)) => return self.v(obs, idx, "budget:panic", hist.join("\n"), format!("panic {} at {}", m, normalise_loc(l))),
+                Ok(Ok(())) => "ok".to_string(),
+                Ok(Err(e)) => {
+                    if !is_limit(e, "insn") {
+                        rejected += 1;
+                    }
+                    err_class(e)
+                }
+            };
+            hist.push(format!("eval {:?} -> {} ({} ticks)", src, res, t));
+            obs.count("budget:sources");
+            obs.see("budget_outcomes", &res);
+            if 2 * ticks > n {
+                return self.v(obs, idx, "budget:more-than-N-executed", hist.join("\n"), format!("{} ticks of at least two instructions each were printed after set_insn_limit({})", ticks, n));
+            }
+            last = Some(src);
+        }
+        if rejected > 0 {
+            obs.count("budget:sessions_with_rejected_source");
+        }
+        obs.add("budget:ticks", ticks as u64);
+        obs.add("evaluations", 1);
+        obs.shape(fnv1a(hist.join("|").as_bytes()));
+        if idx % 1733 < 6 {
+            obs.sample(J::obj(vec![("kind", J::s("budget")), ("history", J::Arr(hist.iter().take(8).map(|h| J::s(h.clone())).collect()))]));
+        }
+    }
+}
+
 impl Monitor for C14 {
     fn run_case(&mut self, idx: u64, obs: &mut Obs) {
-        match idx % 5 {
+        match idx % 6 {
             0 => self.insn_case(idx, obs),
             1 => self.stack_case(idx, obs),
             2 => self.stack_shift_case(idx, obs),
             3 => self.heap_case(idx, obs),
+            4 => self.budget_case(idx, obs),
             _ => self.session_case(idx, obs),
         }
     }
     fn describe(&mut self, idx: u64) -> String {
-        format!("resource-limit case #{} kind {}", idx, ["insn", "stack", "stack-shift", "heap", "session"][(idx % 5) as usize])
+        format!("resource-limit case #{} kind {}", idx, ["insn", "stack", "stack-shift", "heap", "budget", "session"][(idx % 6) as usize])
     }
 }
